@@ -3,6 +3,7 @@ package main
 // topics_att.go: beacon_attestation_{subnet_id} and beacon_aggregate_and_proof.
 
 import (
+	"bytes"
 	"fmt"
 
 	"github.com/protolambda/zrnt/eth2/beacon/common"
@@ -187,7 +188,9 @@ func (g *Gen) genAttestations(sc *Scenario, views []*View) {
 		n := len(ctx.Committee)
 		m := int(uint64(ctx.Slot)+uint64(g.Salt)) % n
 		k := w.KeyOf(ctx.Committee[m])
-		honest := func() *phase0.Attestation { return w.SignAtt(d, n, []int{m}, []KeyNum{k}, common.DOMAIN_BEACON_ATTESTER) }
+		honest := func() *phase0.Attestation {
+			return w.SignAtt(d, n, []int{m}, []KeyNum{k}, common.DOMAIN_BEACON_ATTESTER)
+		}
 		v := v0
 		// signature
 		g.attCase("sig-other-key", v, ctx.Subnet, w.SignAtt(d, n, []int{m}, []KeyNum{k + 1}, common.DOMAIN_BEACON_ATTESTER))
@@ -242,11 +245,11 @@ func (g *Gen) genAttestations(sc *Scenario, views []*View) {
 		{
 			a := honest()
 			s := ctx.Slot
-			g.attCase("clock-at-earliest-edge", v.AtSlot(s, -500), ctx.Subnet, a)          // SlotAfter(+500ms) == slot
-			g.attCase("clock-before-earliest-edge", v.AtSlot(s, -501), ctx.Subnet, a)      // one ms earlier: future slot
-			g.attCase("clock-one-slot-early", v.AtSlot(s-1, 0), ctx.Subnet, a)             // future slot
-			g.attCase("clock-at-latest-edge", v.AtSlot(s+33, 499), ctx.Subnet, a)          // SlotAfter(-500ms) == slot+32
-			g.attCase("clock-after-latest-edge", v.AtSlot(s+33, 500), ctx.Subnet, a)       // one ms later: too old
+			g.attCase("clock-at-earliest-edge", v.AtSlot(s, -500), ctx.Subnet, a)     // SlotAfter(+500ms) == slot
+			g.attCase("clock-before-earliest-edge", v.AtSlot(s, -501), ctx.Subnet, a) // one ms earlier: future slot
+			g.attCase("clock-one-slot-early", v.AtSlot(s-1, 0), ctx.Subnet, a)        // future slot
+			g.attCase("clock-at-latest-edge", v.AtSlot(s+33, 499), ctx.Subnet, a)     // SlotAfter(-500ms) == slot+32
+			g.attCase("clock-after-latest-edge", v.AtSlot(s+33, 500), ctx.Subnet, a)  // one ms later: too old
 			g.attCase("clock-two-epochs-late", v.AtSlot(s+48, 0), ctx.Subnet, a)
 			g.attCase("clock-range-end", v.AtSlot(s+32, 6000), ctx.Subnet, a)
 		}
@@ -380,7 +383,7 @@ func (sc *Scenario) firstAfter(head *Node, s common.Slot) *Node {
 	var best *Node
 	for _, n := range sc.W.Nodes {
 		if n.Slot > s && IsAncestor(head, n) || (n.Slot > s && IsAncestor(n, head)) {
-			if best == nil || n.Slot < best.Slot {
+			if best == nil || n.Slot < best.Slot || (n.Slot == best.Slot && bytes.Compare(n.Root[:], best.Root[:]) < 0) {
 				best = n
 			}
 		}
